@@ -85,7 +85,7 @@ int main(int argc, char** argv)
                         int invocation = 0;
                         bool caught = false;
                         try {
-                            lr.modify([&](Cell& c) {
+                            auto body = [&](Cell& c) {
                                 Win w(c, true);
                                 vrf::tl_vt_label = static_cast<int>(a.id);
                                 c.check("functor");
@@ -96,7 +96,21 @@ int main(int argc, char** argv)
                                 }
                                 c.append_raw(a.id);
                                 functor_calls.fetch_add(1, std::memory_order_relaxed);
-                            });
+                            };
+                            // the callable reaches modify() as a plain lambda, as an rvalue of a value-category-sensitive
+                            // functor, or as an lvalue of one (which the caller may use again afterwards)
+                            if (a.id % 3 == 0) lr.modify(body);
+                            else if (a.id % 3 == 1) lr.modify(vrf::one_shot(body));
+                            else {
+                                auto fn = vrf::one_shot(body);
+                                try {
+                                    lr.modify(fn);
+                                } catch (...) {
+                                    vrf::still_usable(fn);
+                                    throw;
+                                }
+                                vrf::still_usable(fn);
+                            }
                         }
                         catch (const Boom&) {
                             caught = true;
